@@ -760,27 +760,36 @@ RULE = ('every sanitize key (35 of the property reading + whatever the module li
         'values str (12 secret-bearing shapes and plain), bytes, numbers incl. nan/inf, None, bool, lists/tuples (also holding dicts), mappings; '
         'non-mapping arguments; secrets incl. empty, non-ASCII, default; DAG-shaped arguments (one mapping object — every kind, empty and not — or one list/str '
         'referenced 2-3 times at one level and across depths, shared mappings holding shared mappings); repeated calls on one argument object with '
-        'different secrets before the observed call; key-test stream; distinct = distinct case JSON')
+        'different secrets before the observed call; every mdp case again through the identity-aware comparison (op mdph); self-containing (cyclic) '
+        'mappings of every kind; key-test stream; distinct = distinct case JSON')
 LEVEL_TEXT = ('Proved for nested mappings of any depth and width (no bound): the result satisfies the four-rule relation Masked (mapping -> recursed whatever '
               'the key; non-mapping under a secret str key -> the mask; other str -> mask_password; anything else unchanged), Masked is functional, the keys '
               'are the same in the same order at every level and every rebuilt container is a dict, a mapping under a secret key is recursed into, a '
               'non-mapping argument gives TypeError; the 35 documented keys are all in the regenerated key list and the key test is substring-of-lower(). '
               'The loop body is regenerated from the AST as a term and evaluated by the model (reordered branches / dropped recursion change it). '
-              '"The argument and everything reachable from it is left unmodified" and "new dict" (object identity) are NOT expressible in the functional '
-              'model: they are decided by the harness only (deep snapshot incl. object identities before/after every call; result mappings disjoint from '
-              'argument mappings).')
-LEVEL_NOTE = ('Trusted: Coq kernel; translator tools/gen/gen_C08.py (syntactic AST-to-term; evaluated key list); CPython isinstance/dict/str.lower as modelled '
-              '(Base/Str.py_lower from the interpreter\'s Unicode table, final-sigma rule proved irrelevant for sigma-free keys); mask_password is an abstract '
-              'function (Section variable), instantiated in the correspondence by the real function\'s graph. Non-modification/aliasing: harness only.')
+              'Object identity is modelled by a heap semantics (locations, objects, values are references; out = {} allocates, out[k] = ... writes to that '
+              'location only; where the function writes and what it returns are regenerated from the source): C08_argument_unmodified — every location that '
+              'existed before the call holds the same object afterwards, for ANY heap (shared, cyclic); C08_heap_agrees_with_tree_and_result_fresh — for an '
+              'acyclic (arbitrarily shared) argument the call succeeds, the result reads back as exactly the functional model\'s tree, and every dict in it '
+              'was allocated by the call; C08_result_sharing — secret slots are the secret reference, lists/bytes/numbers are the argument\'s own references; '
+              'C08_cycle_RecursionError. The implementation\'s `is` relation between result slots and argument objects is compared with the model\'s on every case.')
+LEVEL_NOTE = ('Trusted: Coq kernel; translator tools/gen/gen_C08.py (syntactic AST-to-term; evaluated key list; write targets / return variable); CPython '
+              'isinstance/dict/str.lower as modelled (Base/Str.py_lower from the interpreter\'s Unicode table, final-sigma rule proved irrelevant for sigma-free '
+              'keys); the heap abstraction (keys inline, items() read when the loop starts, strings immutable); mask_password is an abstract function (Section '
+              'variables mp / mp_h with the contract "only allocates; returns a reference holding mask_password(message, secret)" as premises), instantiated in '
+              'the correspondence by the real function\'s graph.')
 TRUSTED = ['mask_password is abstract in the theorems (Section variable, total str -> str -> str); the correspondence supplies the real function\'s graph, '
            'the oracle calls the real function for rule 3',
            'str.lower() = Base/Str.py_lower (per-code-point table regenerated from the running CPython); the context-sensitive final-sigma rule is not '
            'modelled and proved irrelevant for key lists without sigma (C08_final_sigma_irrelevant)']
-ASSUMPTIONS = ['the functional model has no object identity: an argument in which one object is reachable several times (a DAG) is encoded for the model as '
+ASSUMPTIONS = ['"never modifies its argument" / "new dict" are theorems about the HEAP MODEL (Model/C08_Heap.v), tied to the implementation by comparing, on every case, '
+               'content plus identity of every result slot (argument object @loc / allocated by the call / the secret object) and by the before/after snapshot of the '
+               'argument (content, order, types, object identities); identity of strings returned by mask_password is not compared (CPython may hand its argument back)',
+               'cyclic arguments: the model\'s fuel stands for the interpreter\'s recursion limit (RecursionError is reported as its base class RuntimeError); only '
+               'non-modification is demanded of the implementation there',
+               'the functional model has no object identity: an argument in which one object is reachable several times (a DAG) is encoded for the model as '
                'the tree it denotes; the implementation is run on the real shared objects, and the two occurrences in the result may or may not be one object '
                '(neither is demanded)',
-               '"never modifies its argument" / "new dict": aliasing facts, checked by the harness only (snapshot with object identities before and after; '
-               'identity-disjointness of result and argument mappings) — not a Coq theorem',
                'mappings have pairwise distinct keys at every level (hypothesis wf of the theorems; true of every dict / Mapping built by the harness)',
                'secrets are str without backslashes (a backslash makes mask_password\'s own re template raise; such cases give no verdict)',
                'keys whose case-insensitive reading is ambiguous (lower() vs casefold() disagree: long s, sharp s, dotted capital I at a match border) '
